@@ -69,6 +69,9 @@ func c05Run(f []string) string {
 	if f[0] == "closeord" {
 		return c05CloseOrd(f)
 	}
+	if f[0] == "strace" {
+		return c05SigTraceRun(f)
+	}
 	if f[0] != "agg" {
 		return "bad-op"
 	}
@@ -163,6 +166,9 @@ func c05Gen(r *Rand, tier string) []string {
 	if os.Getenv("VERIF_C05_ONLY") == "trace" { // stress runs of the trace tie alone
 		return aggTraceGen(r, tier)
 	}
+	if os.Getenv("VERIF_C05_ONLY") == "strace" { // the signal-path trace tie and the forced close schedule alone
+		return append(c05SigTraceGen(r, tier), c05CloseOrdGen(r, tier)...)
+	}
 	if os.Getenv("VERIF_C05_ONLY") == "stages" { // the schedule search alone
 		return append(c05StageCases(r, "search", []string{"d"}), c05LocksetGen(r, tier)...)
 	}
@@ -206,6 +212,7 @@ func c05Gen(r *Rand, tier string) []string {
 	out = append(out, c05SigGen(r, tier)...)
 	out = append(out, c05LoggerGen(r, tier)...)
 	out = append(out, c05CloseOrdGen(r, tier)...)
+	out = append(out, c05SigTraceGen(r, tier)...)
 	return append(out, aggTraceGen(r, tier)...)
 }
 
@@ -232,6 +239,14 @@ func c05Stats(cases []string) map[string]int {
 		}
 		if f[0] == "closelag" {
 			st["closelag.cases"]++
+			continue
+		}
+		if f[0] == "strace" {
+			st["strace.cases"]++
+			if len(f) > 2 && strings.HasPrefix(f[2], "1.") {
+				st["strace.signalled"]++
+			}
+			st["strace.events.total"] = c05SigTraceEvents
 			continue
 		}
 		if f[0] == "closeord" {
